@@ -50,6 +50,16 @@ def gen_ops(rng, kind, init, n):
         if r < 0.55: return fr("s")
         if r < 0.70 and spaced_ok: return "vf s" + str(rng.randint(0, 99))
         return rng.choice(syms) if syms else fr("s")
+    if kind == "unit":
+        # fixed corpus first, in every history: a scale with each kind of zero point (of another dimension, not a quantity,
+        # well-formed) under fresh identifiers, and a definition whose symbol holds a blank other than U+0020
+        for dname in ("temperature", "length"):
+            for z in ("otherdim", "number", "ok"):
+                ops.append(["uscale", dname, fr("n"), fr("s"), z])
+        for blank in ("\t", "\n", "\u00a0", "\u2009"):
+            ops.append(["udefine", "length", fr("n"), "vf" + blank + "w"])
+        for o in ops:
+            if o[0] == "uscale" and o[4] == "ok": names.append(o[2]); syms.append(o[3]); mynames.append(o[2]); mysyms.append(o[3])
     for _ in range(n):
         if kind == "unit":
             r = rng.random()
